@@ -2,6 +2,9 @@
 //! Relational monitor over pairs of executions of the real code.
 use std::collections::VecDeque;
 
+/// cap on items taken from a library iterator: a runaway iterator becomes a length violation, not an OOM
+const CAP: usize = 200_000;
+
 use tevec::prelude::{CollectTrustedToVec, MapBasic, MapValidBasic, MapValidVec, TIter, Vec1View};
 use tvmon::ctx::{Ctx, catch};
 use tvmon::model::Expect;
@@ -100,10 +103,10 @@ fn prefix_map(ctx: &mut Ctx, rng: &mut Rng, x: &[f64]) {
     let n = rng.range_usize(0, len + 3) as i32;
     let fill = if rng.chance(0.5) { None } else { Some(rng.range_i64(-3, 3) as f64) };
     let fns: [(&str, Box<dyn Fn(&[f64]) -> Vec<f64>>); 4] = [
-        ("shift", Box::new(move |s: &[f64]| s.to_vec().titer().shift(n, fill.unwrap_or(-1.5)).collect())),
-        ("vshift", Box::new(move |s: &[f64]| s.to_vec().titer().vshift(n, fill).collect())),
-        ("vdiff", Box::new(move |s: &[f64]| s.to_vec().vdiff(n, fill).collect())),
-        ("vpct_change", Box::new(move |s: &[f64]| s.to_vec().vpct_change(n).collect())),
+        ("shift", Box::new(move |s: &[f64]| s.to_vec().titer().shift(n, fill.unwrap_or(-1.5)).take(CAP).collect())),
+        ("vshift", Box::new(move |s: &[f64]| s.to_vec().titer().vshift(n, fill).take(CAP).collect())),
+        ("vdiff", Box::new(move |s: &[f64]| s.to_vec().vdiff(n, fill).take(CAP).collect())),
+        ("vpct_change", Box::new(move |s: &[f64]| s.to_vec().vpct_change(n).take(CAP).collect())),
     ];
     for (name, f) in fns.iter() {
         let full = match catch(|| f(x)) {
